@@ -56,6 +56,9 @@ def main():
     except Exception as e:  # a crash of the checker is not a verdict either
         traceback.print_exc()
         msg = "checker crashed: %r" % (e,)
+        pend = getattr(locals().get("ck"), "pending_floors", None)
+        if pend:
+            msg = pend[0] + " [then: %r]" % (e,)
         print("ANALYSIS-ERROR property=%s %s" % (pid, msg))
         write_error_evidence(pid, tier, level, seed, msg, t0)
         return 2
